@@ -182,11 +182,26 @@ CHECKS['C11'] = dict(
                  'ASan red zones miss non-adjacent and intra-object overflows; the static table is additionally guarded by poisoned 64 KiB zones, intra-object effects by the functional oracles',
                  'ledger attributes blocks by allocation sequence number between constructor and free()'])
 
+
+C12_ACCESSORS = ['qtreetbl.getobj', 'qtreetbl.get', 'qtreetbl.getstr', 'qtreetbl.getnext(name)', 'qtreetbl.getnext(data)', 'qtreetbl.find_min', 'qtreetbl.find_max', 'qtreetbl.find_nearest(name)', 'qtreetbl.find_nearest(data)', 'qhashtbl.get', 'qhashtbl.getstr', 'qhashtbl.getnext(name)', 'qhashtbl.getnext(data)', 'qhasharr.get', 'qhasharr.getstr', 'qhasharr.getnext(name)', 'qhasharr.getnext(data)', 'qlisttbl.get', 'qlisttbl.getstr', 'qlisttbl.getmulti', 'qlisttbl.getnext(name)', 'qlisttbl.getnext(data)', 'qlist.getfirst', 'qlist.getlast', 'qlist.getat', 'qlist.popfirst', 'qlist.poplast', 'qlist.popat', 'qlist.toarray', 'qlist.tostring', 'qlist.getnext', 'qqueue.pop', 'qqueue.popstr', 'qqueue.get', 'qqueue.getstr', 'qqueue.getat', 'qqueue.popat', 'qstack.pop', 'qstack.popstr', 'qstack.get', 'qstack.getstr', 'qstack.getat', 'qstack.popat', 'qgrow.toarray', 'qgrow.tostring', 'qvector.getfirst', 'qvector.getlast', 'qvector.getat', 'qvector.popfirst', 'qvector.poplast', 'qvector.popat', 'qvector.toarray', 'qvector.getnext']
+
+CHECKS['C12'] = dict(
+    title='containers own private copies; returned copies independent', level='exploration',
+    jobs=lambda tier, seed: [Job('h_own', 'asan', args=['--cases', str(9 * (2000 if tier == 'thorough' else 160))])],
+    rule='evaluation = one operation of a per-container random history in which every key/value passed to a put-like call lives in a fresh exactly-sized heap block that is '
+         'overwritten with 0xA5 and freed right after the call, and every copying accessor (%d accessors, each required to be exercised) is called with the copy flag: the returned bytes and length are '
+         'compared with the model, the pointer must be the start of its own library allocation and differ from the internal pointer, and the copy is kept in a pool that is re-verified after every later '
+         'mutation and after the container is released, then freed (double free -> ASan / ledger). ASan+UBSan build. distinct = distinct (accessor, value bytes) copies retained.' % len(C12_ACCESSORS),
+    require=['copies:' + a for a in C12_ACCESSORS] + ['retained_copies_reverified', 'caller_buffers_scribbled_and_freed', 'containers_released'],
+    assumptions=['gcc 12 ASan detects use of freed caller buffers and double frees; the ledger knows every live library allocation',
+                 'values: arbitrary bytes incl. embedded/trailing NUL, C strings, all-zero elements'])
+
 # --------------------------------------------------------------------------- manifest texts
 NOT_APPLICABLE = {}
 DESIGN_REF = {}
 LEVEL_NOTE = {}
 TECHNIQUE = {
+    'C12': 'scribble-and-free of caller buffers + retained-copy pool re-verification + allocation-identity checks under ASan',
     'C11': 'ASan+UBSan+LSan (recover mode) + allocation ledger + poisoned guard zones over the C01-C10 workloads with exact-size caller buffers',
     'C10': 'reference-model oracle (array of fixed-size elements) on an exhaustive (n, index, element size, policy, capacity, op) sweep + random histories',
     'C09': 'reference-model oracle (sequence of byte strings) on an exhaustive (n, index, op, limit) sweep + random histories',
@@ -200,6 +215,7 @@ TECHNIQUE = {
     'C04': 'reference-model floor oracle + continuation multiset audit; CPU watchdog',
 }
 LEVEL_TEXT = {
+    'C12': 'Every put-like call gets throw-away exact-size buffers that are scribbled and freed immediately, every copying accessor of every container is exercised and its result retained, re-verified after later mutations and after release, and finally freed, all under ASan with an allocation ledger.',
     'C11': 'All container harnesses are re-executed on an address/undefined-behaviour/leak-checking build with exactly-sized caller buffers; every sanitizer report block is parsed and keyed by (class, library function), and a ledger proves every allocation is released with the container.',
     'C10': 'Every call on the real vector is compared with an array model for 5 element sizes x 3 growth policies x 4 initial capacities, every index in [-n-2,n+2] for n<=10, and random histories with resizes including to zero; the raw element buffer is compared after every operation.',
     'C09': 'Every call on the real list/queue/stack/grow buffer is compared with a sequence model, refused calls are verified effect-free by full state comparison, and every (length, index, operation, limit) cell up to length 12 is executed.',
